@@ -243,6 +243,7 @@ func (c *c16cfg) body(depth int) {
 
 	for step := 0; step < depth; step++ {
 		ev := c.events[vs.Choose(len(c.events), vs.Free)]
+		_, dBefore, _ := vs.Deviations()
 		peersBefore := len(peersLog)
 		applied := true
 		switch ev {
@@ -323,7 +324,7 @@ func (c *c16cfg) body(depth int) {
 					vs.Failf("c16:offered-unknown-or-down-host", "a query was offered host %s which is not a known up host (known %v, down %v) after history %v", o, known, down, hist)
 				}
 			}
-			if err != nil && len(known) > len(down) {
+			if _, dq, _ := vs.Deviations(); err != nil && len(known) > len(down) && dq == dBefore {
 				vs.Failf("c16:query-failed", "query failed with %v although %d known hosts are up, after history %v", err, len(known)-len(down), hist)
 			}
 		}
@@ -331,7 +332,18 @@ func (c *c16cfg) body(depth int) {
 			ev += "(n/a)"
 		}
 		hist = append(hist, ev)
-		vs.Settle(4 * time.Second)
+		// settle: let 4s of virtual time pass and wait until nothing is runnable; repeat until the driver's
+		// picture stops changing (an early-fired timer - a D deviation, possibly of this very sleep - can
+		// make one round end while the event is still being processed)
+		prev := ""
+		for round := 0; round < 6; round++ {
+			vs.Settle(4 * time.Second)
+			now := fmt.Sprintf("%+v|%d", gocql.VerifRingSnapshot(sess), len(peersLog))
+			if now == prev {
+				break
+			}
+			prev = now
+		}
 		// reference model update
 		refreshed := false
 		for _, served := range peersLog[peersBefore:] {
@@ -353,7 +365,28 @@ func (c *c16cfg) body(depth int) {
 				}
 			}
 		}
-		if refreshed {
+		// A timer fired early (D deviation) during this event can make the client time out on a system-table
+		// read the node did serve: then "served" does not mean "applied". The model cannot tell, so it
+		// resynchronises on the driver's own picture for this step (index agreement is still checked).
+		_, dAfter, _ := vs.Deviations()
+		uncertain := dAfter != dBefore
+		if uncertain {
+			snap := gocql.VerifRingSnapshot(sess)
+			known = map[string]string{}
+			for id, addr := range snap.Hosts {
+				known[id] = addr
+			}
+			pools := map[string]bool{}
+			for _, id := range snap.PoolIDs {
+				pools[id] = true
+			}
+			down = map[string]bool{}
+			for id := range known {
+				if !pools[id] {
+					down[id] = true
+				}
+			}
+		} else if refreshed {
 			known = validOf(view)
 			for id := range down {
 				if _, still := known[id]; !still {
@@ -362,7 +395,7 @@ func (c *c16cfg) body(depth int) {
 			}
 		}
 		mustRefresh := map[string]bool{"add-C": true, "remove-B": true, "move-B": true, "replace-B-by-D": true, "invalid-peer": true, "duplicate-row": true, "up-unknown": true, "control-loss": true}
-		if applied && mustRefresh[ev] && !refreshed {
+		if applied && mustRefresh[ev] && !refreshed && !uncertain {
 			_, d, _ := vs.Deviations()
 			if d == 0 {
 				vs.Failf("c16:no-refresh-after-"+ev, "event %s did not lead to a successful refresh within 4s after history %v (peers reads: %v)", ev, hist, peersLog[peersBefore:])
